@@ -54,11 +54,12 @@ theorem step_sim (S : Sem P V) (hS : ∀ k, (S.inPlaceIdx k).length ≤ 1) (f : 
         collect views st1 taken 0 ins = lookups (opLookup views st) ins →
         (∀ m, getInput st1.env m = getInput st.env m ∨
           (st.rc m = 1 ∧ m ∈ ins ∧ isValueNode g m = true ∧ (m ∈ g.defs ∨ m ∈ g.caps))) →
-        (∀ m, m ∈ g.allDefs → getInput st1.env m = none) → headOK st1.env → st1.rc = st.rc →
+        (∀ m, m ∈ g.allDefs → getInput st1.env m = none) → headOK st1.env →
+        (∀ n, look (headByVal st1.env) n ≠ none → g.capNames.count n ≤ 1) → st1.rc = st.rc →
         (∀ m, look st1.temp m = look st.temp m ∨ (look st1.temp m = none ∧ st.rc m = 1 ∧ m ∈ ins)) →
         Rel (fun st' σ' => ∃ b', σ' = b' ++ σp ∧ Inv g views σp rest st' b')
           (primFinish S views k ins out st1 taken) (evalOp S false ev (b ++ σp) (.prim k ins out)) := by
-      intro st1 taken hcol henv1 hsh1 hhd1 hrc heff
+      intro st1 taken hcol henv1 hsh1 hhd1 hbo1 hrc heff
       simp only [primFinish, evalOp, hcol, hl]
       cases hlk : lookups (look (b ++ σp)) ins with
       | error e => simp [Rel]
@@ -69,12 +70,12 @@ theorem step_sim (S : Sem P V) (hS : ∀ k, (S.inPlaceIdx k).length ≤ 1) (f : 
           simp only [Rel, hr]
           refine ⟨(out, v) :: b, rfl, ?_⟩
           have := inv_finish g views σp ctx (.prim k ins out) hop rest st st1 b [v] inv
-            (by simpa [deps_prim] using henv1) hsh1 hhd1 hrc (by simpa [deps_prim] using heff)
+            (by simpa [deps_prim] using henv1) hsh1 hhd1 hbo1 hrc (by simpa [deps_prim] using heff)
           simpa [Op.outs, deps_prim] using this
     have hnone : Rel (fun st' σ' => ∃ b', σ' = b' ++ σp ∧ Inv g views σp rest st' b')
         (primFinish S views k ins out st []) (evalOp S false ev (b ++ σp) (.prim k ins out)) :=
       hfin st [] (collect_nil_eq_lookups views st ins 0) (fun m => Or.inl rfl) inv.shadowE inv.headok
-        rfl (fun m => Or.inl rfl)
+        inv.byvalonce rfl (fun m => Or.inl rfl)
     rw [stepOp_prim_eq]
     by_cases hip : inPlaceCond S g st k ins = true
     · rcases candidates_spec S k ins st.temp (hS k) with hc | ⟨pos, n, hc, hpos⟩
@@ -121,6 +122,7 @@ theorem step_sim (S : Sem P V) (hS : ∀ k, (S.inPlaceIdx k).length ≤ 1) (f : 
           · exact fun m => Or.inl rfl
           · exact inv.shadowE
           · exact inv.headok
+          · exact inv.byvalonce
           · rfl
           · intro m
             by_cases hm : m = n
@@ -163,23 +165,27 @@ theorem step_sim (S : Sem P V) (hS : ∀ k, (S.inPlaceIdx k).length ≤ 1) (f : 
             · left; exact getInput_takeInput_ne _ _ _ hm
           · exact fun m hm => getInput_takeInput_none _ _ _ (inv.shadowE m hm)
           · exact headOK_takeInput _ _ inv.headok
+          · exact fun m hm => inv.byvalonce m (headByVal_takeInput _ _ _ hm)
           · rfl
           · exact fun m => Or.inl rfl
     · rw [if_neg hip]
       exact hnone
   | ifOp c t e outs =>
-    obtain ⟨hnr, hwt, hwe, hdt, hde⟩ := hwf
+    obtain ⟨hwt, hwe, hdt, hde⟩ := hwf
+    have hnr := noEnvTake_of_once g (.ifOp c t e outs) hop st.env inv.byvalonce
     have hfacts := extract_facts g (.ifOp c t e outs) st hnr
     have hout : ∀ sub : Graph P V, wfG f sub = true → ∀ n, n ∈ sub.outputs → n ∈ sub.defs := by
       intro sub hw
       cases f with
       | zero => simp [wfG] at hw
       | succ f' => exact (wfG_succ f' sub hw).2.2.1
-    have hct := child_hyps g views σp ctx _ hop rest st b inv hnr t
+    have hct := child_hyps g views σp ctx _ hop rest st b inv t
       (fun n hn => by simp only [Op.capNames, List.mem_append]; left; exact hn)
+      (fun n => by simp only [Op.capNames, List.count_append]; omega)
       (fun n hn => by simp only [Op.allDefs, List.mem_append]; left; exact hn) hdt (hout t hwt)
-    have hce := child_hyps g views σp ctx _ hop rest st b inv hnr e
+    have hce := child_hyps g views σp ctx _ hop rest st b inv e
       (fun n hn => by simp only [Op.capNames, List.mem_append]; right; exact hn)
+      (fun n => by simp only [Op.capNames, List.count_append]; omega)
       (fun n hn => by simp only [Op.allDefs, List.mem_append]; right; exact hn) hde (hout e hwe)
     have hagc := inv.agree c (needed_head g _ rest c (Or.inl (by simp [Op.directInputs])))
     have hcin : c ∈ (Op.ifOp c t e outs : Op P V).directInputs := by simp [Op.directInputs]
@@ -203,10 +209,10 @@ theorem step_sim (S : Sem P V) (hS : ∀ k, (S.inPlaceIdx k).length ≤ 1) (f : 
                byVal := ex.2 } :: ex.1.env) = ev (b ++ σp) (if x ≠ 0 then t else e) [] := by
           by_cases hx : x ≠ 0
           · rw [if_pos hx]
-            have := href t [] _ (b ++ σp) hwt hct.1 hct.2.1 hct.2.2
+            have := href t [] _ (b ++ σp) hwt hct.1 hct.2.1 hct.2.2.1 hct.2.2.2
             simpa using this
           · rw [if_neg hx]
-            have := href e [] _ (b ++ σp) hwe hce.1 hce.2.1 hce.2.2
+            have := href e [] _ (b ++ σp) hwe hce.1 hce.2.1 hce.2.2.1 hce.2.2.2
             simpa using this
         rw [hrun]
         cases hr : ev (b ++ σp) (if x ≠ 0 then t else e) [] with
@@ -218,16 +224,18 @@ theorem step_sim (S : Sem P V) (hS : ∀ k, (S.inPlaceIdx k).length ≤ 1) (f : 
             refine ⟨outs.zip r ++ b, by simp [List.append_assoc], ?_⟩
             exact inv_finish g views σp ctx (.ifOp c t e outs) hop rest st ex.1 b r inv
               (fun m => Or.inl (by rw [henv])) (fun m hm => by rw [henv]; exact inv.shadowE m hm)
-              (by rw [henv]; exact inv.headok) hrc heff
+              (by rw [henv]; exact inv.headok) (by rw [henv]; exact inv.byvalonce) hrc heff
   | loop trip cond car body outs =>
-    obtain ⟨hnr, hwb, hdb⟩ := hwf
+    obtain ⟨hwb, hdb⟩ := hwf
+    have hnr := noEnvTake_of_once g (.loop trip cond car body outs) hop st.env inv.byvalonce
     have hfacts := extract_facts g (.loop trip cond car body outs) st hnr
     have hout : ∀ n, n ∈ body.outputs → n ∈ body.defs := by
       cases f with
       | zero => simp [wfG] at hwb
       | succ f' => exact (wfG_succ f' body hwb).2.2.1
-    have hcb := child_hyps g views σp ctx _ hop rest st b inv hnr body
-      (fun n hn => by simpa [Op.capNames] using hn) (fun n hn => by simpa [Op.allDefs] using hn)
+    have hcb := child_hyps g views σp ctx _ hop rest st b inv body
+      (fun n hn => by simpa [Op.capNames] using hn) (fun n => by simp [Op.capNames])
+      (fun n hn => by simpa [Op.allDefs] using hn)
       hdb hout
     have hag : ∀ n, n ∈ (Op.loop trip cond car body outs : Op P V).directInputs →
         opLookup views st n = look (b ++ σp) n :=
@@ -254,7 +262,7 @@ theorem step_sim (S : Sem P V) (hS : ∀ k, (S.inPlaceIdx k).length ≤ 1) (f : 
         (fun _ args => ev (b ++ σp) body args) := by
       funext i args
       have := href body ((args.zipIdx).map (fun (v, j) => (decide (j < 2) || decide (i ≠ 0), v)))
-        _ (b ++ σp) hwb hcb.1 hcb.2.1 hcb.2.2
+        _ (b ++ σp) hwb hcb.1 hcb.2.1 hcb.2.2.1 hcb.2.2.2
       rw [this, flags_map_snd _ (fun p => rfl) args 0]
     rw [htrip, hcnd, hcar, hrun]
     cases ht : optLookup (look (b ++ σp)) trip with
@@ -277,6 +285,6 @@ theorem step_sim (S : Sem P V) (hS : ∀ k, (S.inPlaceIdx k).length ≤ 1) (f : 
               refine ⟨outs.zip r ++ b, by simp [List.append_assoc], ?_⟩
               exact inv_finish g views σp ctx (.loop trip cond car body outs) hop rest st ex.1 b r
                 inv (fun m => Or.inl (by rw [henv])) (fun m hm => by rw [henv]; exact inv.shadowE m hm)
-                (by rw [henv]; exact inv.headok) hrc heff
+                (by rw [henv]; exact inv.headok) (by rw [henv]; exact inv.byvalonce) hrc heff
 
 end RtenVerif.ControlFlow
